@@ -47,6 +47,22 @@ CHECKS = {
    text="property-based search over four adjacent-group shapes x wrappers with 0-3 blocks placed among other options, with block mutations (cut short, split by a foreign item, lead not first, members reordered); by-construction expectation and a contiguity predicate on every accepted value",
    note="trusted: the generator's block bookkeeping (which item belongs to which block, which item is foreign)",
    tech="property-based testing: by-construction values for well-formed lines, must-fail mutants, validity predicate (contiguous run starting at the lead) on accepted lines"),
+ "C12": dict(
+   text="property-based search over decorated definitions; for every reachable command level the expectation (visible items, first names, metavariables, markers) is computed from the definition and compared with the tokenised help text in both directions; differential without usage decorations; every shown name probed for acceptance",
+   note="trusted: the visibility computation in harness/src/props/c12.rs (what hide/adjacent/alias mean for the item lists) and unique marker words as the carrier of 'help text present'",
+   tech="property-based testing: by-construction expectation + tokenising lexer of the help text + metamorphic (decorations removed) + acceptance probes"),
+ "C13": dict(
+   text="property-based search over documents obtained from real runs (help of any level, error messages) with grammar-generated texts, rendered at 14 widths (thorough: all of 1..=300); whitespace-insensitive equality with the unwrapped rendering, line-width predicate, short-form marker check",
+   note="trusted: width 65535 as the 'unwrapped' reference (largest width std::fmt accepts); the exception clause of the width rule is implemented generously (a wrapped term tail counts as a term)",
+   tech="property-based testing: metamorphic relation between widths + validity predicate per line"),
+ "C14": dict(
+   text="property-based search over partially typed lines (every cut of generated sentences x 10 kinds of typed word) at completion revision 0; each returned row is classified against name/value/metavariable sets computed from the definition and the chain of commands entered; completeness for freshly typed --prefixes",
+   note="trusted: the chain-of-levels computation and the candidate sets derived from the definition; completeness only for items that are a field of their own",
+   tech="property-based testing: validity predicate over parsed completion rows + completeness check from a by-construction expectation"),
+ "C15": dict(
+   text="property-based search with hostile strings; differential between revision 0 and the bash/zsh/fish/elvish renderings through an independent shell-word lexer (directive grammar, all data single-quoted, each candidate/completer exactly once); ~6% of cases sourced by a real bash with stubbed completion builtins and a canary file",
+   note="no zsh/fish/elvish binaries in the sandbox: zsh text is executed under bash with stubs (shared quoting semantics), fish/elvish are checked against their line format; candidates/groups never contain tab/newline",
+   tech="property-based testing + differential (revision 0 vs shell renderers) + lexer + execution in a sandboxed bash"),
 }
 
 PENDING_REASON = "check not built yet in this session (designed in DESIGN.md section 4; property-based testing applies to it)"
